@@ -480,6 +480,29 @@ def h_added_geometry_terminal(eng, ff, position):
         eng.check(not moved, "input-heavy-atoms-not-displaced-by-hydrogen-building", note=f"{position} {resname}: input atoms moved although debumping and optimisation are off: {moved[:4]}")
 
 
+def h_neutral_terminus_locality(eng, ff="parse"):
+    """--neutraln / --neutralc rebuild hydrogens of the terminal residues only: every atom of every NON-terminal
+    residue - in particular the amide H of a later residue of the same type as the terminal one - is placed exactly
+    where the run without the option places it (two real runs, residue type and options selectors)"""
+    from pdb2pqr import main
+
+    resname = AMINO20[eng.choice("residue", len(AMINO20))]
+    nn, nc = eng.flag("neutraln"), eng.flag("neutralc")
+    seq = [resname, "ALA", resname, "GLY", resname]
+    lines = fixtures.peptide_lines(seq)
+    runs = []
+    for a, b in ((False, False), (bool(nn), bool(nc))):
+        try:
+            bm, defn = fixtures.prepared(lines, neutraln=a, neutralc=b)
+            main.non_trivial(fixtures.Args(ff=ff, pka_method=None, debump=False, opt=False, neutraln=a, neutralc=b), bm, None, defn, False)
+        except (ValueError, KeyError) as e:
+            eng.check(True, "loud-failure-tolerated", note=type(e).__name__)
+            return
+        runs.append({(r.res_seq, x.name): (round(x.x, 3), round(x.y, 3), round(x.z, 3)) for r in bm.residues[1:-1] for x in r.atoms})
+    diff = sorted(k for k in set(runs[0]) | set(runs[1]) if runs[0].get(k) != runs[1].get(k))
+    eng.check(not diff, "non-terminal-residues-built-identically", note=f"{resname}: with neutraln={nn} neutralc={nc} atoms of non-terminal residues differ from the run without the options: {[(k, runs[0].get(k), runs[1].get(k)) for k in diff[:3]]}")
+
+
 WATER_SITES = {
     "contact": [(3.0, 8.0, 2.0)],
     "isolated": [(40.0, 42.0, 44.0)],
@@ -540,6 +563,7 @@ def obligations(tier):
     for ff in ("amber",) if tier == "quick" else ("amber", "parse", "charmm"):
         for position in ("nterm", "cterm"):
             obs.append(Obligation(f"added-geometry-{position}-{ff}", h_added_geometry_terminal, dict(ff=ff, position=position), group="added-geometry", time_cap=1500))
+    obs.append(Obligation("neutral-terminus-locality-parse", h_neutral_terminus_locality, dict(ff="parse"), group="added-geometry", time_cap=1500))
     for ff in ("parse",) if tier == "quick" else ("parse", "amber", "charmm"):
         obs.append(Obligation(f"added-water-{ff}", h_added_water, dict(ff=ff), group="added-geometry", time_cap=1500))
     # a hydrogen finalised (or placed by a donor attempt) on an oxygen with two bonds sits at a free tetrahedral position (C14's site harness)
